@@ -266,14 +266,19 @@ def _count(acc, kind, stats, cfg, ref_i, est_i):
 
 # --------------------------------------------------------------------------- shards
 def shard_pairs(arg):
-    """arg = (kind, cell, phase, refs, ests, configs, xcheck); configs: list of dicts."""
-    kind, cell, phase, refs, ests, configs, xcheck = arg
+    """arg = (kind, cell, phase, refs, ests, configs, xcheck[, first]); configs: list of dicts.
+
+    With ``first`` (global index of refs[0] in ests) only the unordered pairs are enumerated: reference k is
+    paired with the estimates of index >= k.  One call observes both directions (precision is the recall of the
+    exchanged pair), so the exchanged ordered pair adds nothing but (P, R) -> (R, P)."""
+    kind, cell, phase, refs, ests, configs, xcheck = arg[:7]
+    first = arg[7] if len(arg) > 7 else None
     acc = core.Acc(PID)
     est_real = [realise(h, cell, phase) for h in ests]
     last = None
-    for rh in refs:
+    for k, rh in enumerate(refs):
         ref_i, ref_l = realise(rh, cell, phase)
-        for (est_i, est_l) in est_real:
+        for (est_i, est_l) in (est_real if first is None else est_real[first + k:]):
             for cfg in configs:
                 acc.states += 1
                 acc.tick(lambda: make_case(kind, ref_i, ref_l, est_i, est_l, cfg))
@@ -410,6 +415,15 @@ def _shards(kind, cell, phase, refs, ests, configs, xcheck, n=64):
     return [(kind, cell, phase, ch, ests, configs, xcheck) for ch in core.chunks(refs, n)]
 
 
+def _tri_shards(kind, cell, phase, hs, configs, n=256):
+    """Unordered pairs {ref, est} of one list (ref index <= est index), many small shards."""
+    out, i = [], 0
+    for ch in core.chunks(hs, n):
+        out.append((kind, cell, phase, ch, hs, configs, False, i))
+        i += len(ch)
+    return out
+
+
 def run(run):
     thorough = run.tier == "thorough"
     mod = __name__
@@ -452,8 +466,7 @@ def run(run):
     cmax = 4 if thorough else 3
     all_cfg_T = _cfgs(windows, sizes, (False, True), BETAS)
     cfg_T_b1 = _cfgs(windows, sizes, (False, True), (1.0,))
-    cfg_L = _cfgs((None,), sizes, (True,), BETAS)
-    cfg_L_b1 = _cfgs((None,), sizes, (True,), (1.0,))
+    cfg_L = _cfgs((None,), sizes, (True,), (1.0,)) + _cfgs((None,), sizes[1:2], (True,), BETAS[1:])
     cfg_E_all = _cfgs(windows, sizes, (False,), BETAS)
     cfg_E_few = [{"window": w, "frame_size": fs, "transitive": False, "beta": 1.0}
                  for w, fs in ((None, 0.5 * s), (1.0 * s, 0.25 * s), (1.5 * s, 0.5 * s), (15.0 * s, 0.25 * s),
@@ -466,36 +479,41 @@ def run(run):
                     _shards("T", cell, ph, hs, hs, all_cfg_T, c <= 3))
     if thorough:
         hs3 = hierarchies(3, 1, 3, False)
-        run.explore("T c=3 levels<=3 (%d^2 x %d cfg)" % (len(hs3), len(all_cfg_T)), mod, "shard_pairs",
-                    _shards("T", cell, ph, hs3, hs3, all_cfg_T, False))
+        run.explore("T c=3 levels<=3 (%d^2 x %d cfg)" % (len(hs3), len(cfg_T_b1)), mod, "shard_pairs",
+                    _shards("T", cell, ph, hs3, hs3, cfg_T_b1, False))
         h4_3 = hierarchies(4, 3, 3, False)
         h4_2 = hierarchies(4, 1, 2, False)
-        run.explore("T c=4 ref 3 levels x est <=2 (%dx%d x %d cfg)" % (len(h4_3), len(h4_2), len(cfg_T_b1)), mod,
-                    "shard_pairs", _shards("T", cell, ph, h4_3, h4_2, cfg_T_b1, False, 128))
-        run.explore("T c=4 ref <=2 x est 3 levels", mod, "shard_pairs",
-                    [("T", cell, ph, h4_2, ch, cfg_T_b1, False) for ch in core.chunks(h4_3, 128)])
+        run.explore("T c=4 3 levels x <=2 levels (%dx%d x %d cfg)" % (len(h4_3), len(h4_2), len(cfg_T_b1)), mod,
+                    "shard_pairs", _shards("T", cell, ph, h4_3, h4_2, cfg_T_b1, False, 256),
+                    note="one call observes both directions, so <=2 levels x 3 levels is the same set of "
+                         "(ref, est) structures with precision and recall exchanged")
         fine = _cfgs(windows, (0.125 * s,), (False, True), (1.0,))
         run.explore("T c=4 levels<=2, 16 frames (%d^2 x %d cfg)" % (len(h4_2), len(fine)), mod, "shard_pairs",
                     _shards("T", cell, ph, h4_2, h4_2, fine, False))
     # (2) L-measure
-    for c in range(1, cmax + 1):
+    for c in range(1, 4):
         hs = hierarchies(c, 1, 2, True)
-        cfgs = cfg_L if c <= 3 else cfg_L_b1
-        run.explore("L c=%d levels<=2 (%d^2 pairs x %d cfg)" % (c, len(hs), len(cfgs)), mod, "shard_pairs",
-                    _shards("L", cell, ph, hs, hs, cfgs, c <= 3, 128 if c == 4 else 64))
+        run.explore("L c=%d levels<=2 (%d^2 pairs x %d cfg)" % (c, len(hs), len(cfg_L)), mod, "shard_pairs",
+                    _shards("L", cell, ph, hs, hs, cfg_L, True))
     if thorough:
+        cf = _cfgs((None,), (sizes[0], sizes[2]), (True,), (1.0,))
+        hl4 = hierarchies(4, 1, 2, True)
+        run.explore("L c=4 levels<=2 (%d unordered pairs x %d cfg)" % (len(hl4) * (len(hl4) + 1) // 2, len(cf)),
+                    mod, "shard_pairs", _tri_shards("L", cell, ph, hl4, cf))
         hl3 = hierarchies(3, 1, 3, True)
         cf = _cfgs((None,), sizes[:2], (True,), (1.0,))
-        run.explore("L c=3 levels<=3 (%d^2 x %d cfg)" % (len(hl3), len(cf)), mod, "shard_pairs",
-                    _shards("L", cell, ph, hl3, hl3, cf, False, 128))
+        run.explore("L c=3 levels<=3 (%d unordered pairs x %d cfg)" % (len(hl3) * (len(hl3) + 1) // 2, len(cf)),
+                    mod, "shard_pairs", _tri_shards("L", cell, ph, hl3, cf))
     # (3) evaluate
     for c in range(1, 4):
         hs = [canonical_labels(h) for h in hierarchies(c, 1, 2, False)]
         run.explore("E c=%d alternating labels (%d^2 x %d cfg)" % (c, len(hs), len(cfg_E_all)), mod,
                     "shard_pairs", _shards("E", cell, ph, hs, hs, cfg_E_all, False))
     hs = hierarchies(3, 1, 2, True)
-    run.explore("E c=3 labelled (%d^2 x %d cfg)" % (len(hs), len(cfg_E_few)), mod, "shard_pairs",
-                _shards("E", cell, ph, hs, hs, cfg_E_few, False))
+    cfg_E_lab = cfg_E_few if thorough else [cfg_E_few[1], {"window": None, "frame_size": 0.375 * s,
+                                                           "transitive": False, "beta": 1.0}]
+    run.explore("E c=3 labelled (%d^2 x %d cfg)" % (len(hs), len(cfg_E_lab)), mod, "shard_pairs",
+                _shards("E", cell, ph, hs, hs, cfg_E_lab, False))
     if thorough:
         hs = [canonical_labels(h) for h in hierarchies(4, 1, 2, False)]
         run.explore("E c=4 alternating labels (%d^2 x %d cfg)" % (len(hs), len(cfg_E_few)), mod, "shard_pairs",
